@@ -71,6 +71,7 @@ def reader_routes(ctx, tables, paths, versions, cur3, p3):
     rng = ctx.rng
     real = noaa.Calibrator
     built = {}
+    route_lines = []
     for k in range(ctx.n(24, 160)):
         fmt = ["klmGac", "podGac", "klmLac", "podLac"][k % 4 if k % 8 < 6 else 0]
         route = ["params-both", "legacy-both", "legacy-custom", "legacy-file", "params-file", "params-custom", "legacy-both-empty",
@@ -99,12 +100,13 @@ def reader_routes(ctx, tables, paths, versions, cur3, p3):
               "legacy-both-empty": dict(custom_calibration={}, calibration_file=paths[f]),
               "legacy-custom": dict(custom_calibration=copy.deepcopy(custom)),
               "legacy-file": dict(calibration_file=paths[f])}[route]
-        got = []
+        got, args = [], []
 
         class _Spy:
             def __call__(self, *a, **kws):
                 c = real(*a, **kws)
                 got.append(c)
+                args.append((kws.get("custom_coeffs", a[1] if len(a) > 1 else None), kws.get("coeffs_file", a[2] if len(a) > 2 else None)))
                 return c
 
             def __getattr__(self, nm):
@@ -137,6 +139,19 @@ def reader_routes(ctx, tables, paths, versions, cur3, p3):
                           "(spacecraft, custom, file content) in %s" % (route, fmt, sat, f, sorted(custom), bad), payload,
                           cls="reader-route:%s" % route)
         ctx.case(("reader-route", k), nontrivial=True, branch="reader-route/" + route)
+        # the model's option plumbing (`readerOpts` / `readerReq`) on the same route
+        ct = "c" if custom else ("e" if route.endswith("-empty") else "_")
+        ft = "_" if route in ("legacy-custom", "params-custom") else str(f)
+        line = "c16route %s" % (" ".join(["P", ct, ft, "_", "_"]) if route.startswith("params") else " ".join(["N", "_", "_", ct, ft]))
+        ic, ifile = args[0]
+        impl = "%s %s" % ("_" if ic is None else ("c" if ic else "e"), "_" if ifile is None else (str(f) if ifile == paths[f] else "?"))
+        route_lines.append((line, impl, payload))
+    if ctx.driver_ok and route_lines:
+        outs = Driver(ctx).batch([x[0] for x in route_lines])
+        for (line, impl, payload), o in zip(route_lines, outs):
+            if " ".join(o.split()[:2]) != impl:
+                ctx.corr_break("reader options %s: the model hands the calibrator (custom, file) = %s, the implementation %s" % (
+                    payload["route"], " ".join(o.split()[:2]), impl))
 
 
 def run(ctx):
